@@ -284,7 +284,7 @@ def values_for(a, tier, text):
 
 
 def shards(tier, seed):
-    return [("addr", part, image) for part in range(12) for image in (0, 1)] + [("invalid",), ("count-max",), ("refused",)]
+    return [("addr", part, image) for part in range(12) for image in (0, 1)] + [("invalid",), ("count-max",), ("refused",)] + [("addr", 0, 0, "debuglog"), ("addr", 7, 1, "debuglog"), ("refused", "debuglog")]
 
 
 def describe(tier, seed):
